@@ -241,14 +241,17 @@ Fixpoint drive_acts (fuel : nat) (de fq want_ret quit : bool) (out : nat -> pout
   match fuel with
   | O => []
   | S f =>
-      let others := match ps_commit s with Some h => remove_nat h (ps_infl s) | None => ps_infl s end in
       match best prio (ps_infl s) with
       | None =>
           let acts := ACommit :: main_drain de fq want_ret quit out (pstep de fq want_ret quit out s ACommit) in
           match ps_commit s with Some _ => acts | None => [] end
       | Some n =>
           let held := match hold with Some h => Nat.eqb h n | None => false end in
-          let a1 := if held then [ACheck n] else [ACheck n; ACommit] in
+          let mine := match ps_commit (pstep de fq want_ret quit out s (ACheck n)) with
+                      | Some c => Nat.eqb c n && is_none (ps_commit s)
+                      | None => false
+                      end in
+          let a1 := if mine && negb held then [ACheck n; ACommit] else [ACheck n] in
           let s1 := fold_left (pstep de fq want_ret quit out) a1 s in
           let a2 := main_drain de fq want_ret quit out s1 in
           let s2 := fold_left (pstep de fq want_ret quit out) a2 s1 in
